@@ -22,11 +22,22 @@ MANIFEST = dict(
          "(real OrderedSamples / ImportanceFlowProposal / ImportanceFlowModel code paths, with exactly-known 'tilt' flows "
          "substituted for the neural flows and their training) through the Rat model after every iteration, finalisation and "
          "checkpoint/resume (box priors and priors that are zero inside the box; strict/soft threshold, replace-all, "
-         "with/without the independent set, logit/none), and by oracle checks on short runs with real neural flows.",
+         "with/without the independent set, logit/none), and by oracle checks on short runs with real neural flows. The weight "
+         "bookkeeping is ALSO regenerated from the source on every run (harness/c03_tx.py: add_new_proposal_weight + "
+         "update_proposal_weights + compute_meta_proposal_from_log_q over Python dictionaries in insertion order -> "
+         "Gen/MetaTx.lean) and proved equal to the model's addProposalWeight (errors included) and mix "
+         "(add_new_proposal_weight_source_eq_model, meta_from_log_q_source_eq_model).",
     note="Densities q_k(x) are inputs of the model (the harness evaluates the exactly-known tilt densities as rationals at the stored "
          "float coordinates); neural-flow runs are checked by the oracle only (float32 tolerance). Ordering/alignment of rows is C04.",
-    technique="Lean 4 proof (invariant by induction over iterations, any field) + trace replay of real runs through the Rat model",
+    technique="Lean 4 proof (invariant by induction over iterations, any field; weight bookkeeping translated from the source and "
+              "proved equal to the model) + trace replay of real runs through the Rat model",
     ref="5/C03")
+
+
+def gen(ctx):
+    """regenerate Gen/MetaTx.lean from the current source of the meta-proposal's weight bookkeeping (harness/c03_tx.py)"""
+    from . import c03_tx
+    c03_tx.gen(ctx)
 
 TOL = 1e-9
 
